@@ -159,3 +159,40 @@ Definition count_storing (fns : list fn_rec) (sf : store_facts) (sufs : list str
   List.length (filter (fun f => named sufs f && existsb (fun e => N.eqb (fst e) t && memN q (snd e)) (stores_of sf (fn_id f))) fns).
 
 Definition count_named (fns : list fn_rec) (sufs : list string) : nat := List.length (filter (named sufs) fns).
+
+(* ---- the same two checks for a set of functions given by any selector (a package and the end of
+   the name: the cpy / CopyTo / Copy of the GENERATED inspectors) *)
+Definition contains (sub s : string) : bool := match index 0 sub s with Some _ => true | None => false end.
+
+Definition in_package (pkg : string) (sufs : list string) (f : fn_rec) : bool := contains pkg (fn_name f) && named sufs f.
+
+Definition stored_only_from_sel (fns : list fn_rec) (sf : store_facts) (sel : fn_rec -> bool) (t : N) (allowed : list N) : bool :=
+  forallb (fun f => if sel f
+                    then forallb (fun e => if N.eqb (fst e) t then forallb (fun q => memN q allowed) (snd e) else true) (stores_of sf (fn_id f))
+                    else true) fns.
+
+Theorem stored_only_from_sel_sound fns sf sel t allowed :
+  stored_only_from_sel fns sf sel t allowed = true ->
+  forall f, In f fns -> sel f = true ->
+  forall from, In (t, from) (stores_of sf (fn_id f)) -> forall q, In q from -> In q allowed.
+Proof.
+  unfold stored_only_from_sel. intros H f Hf Hn from Hin q Hq. rewrite forallb_forall in H. specialize (H f Hf).
+  rewrite Hn in H. rewrite forallb_forall in H. specialize (H _ Hin). cbn in H.
+  rewrite N.eqb_refl in H. rewrite forallb_forall in H. apply memN_In. apply H. exact Hq.
+Qed.
+
+Definition never_from_sel (fns : list fn_rec) (rf : list (N * list N)) (sel : fn_rec -> bool) (p : N) : bool :=
+  forallb (fun f => if sel f then negb (memN p (result_from rf (fn_id f))) else true) fns.
+
+Theorem never_from_sel_sound fns rf sel p :
+  never_from_sel fns rf sel p = true ->
+  forall f, In f fns -> sel f = true -> ~ In p (result_from rf (fn_id f)).
+Proof.
+  unfold never_from_sel. intros H f Hf Hn Hp. rewrite forallb_forall in H. specialize (H f Hf).
+  rewrite Hn in H. apply memN_In in Hp. rewrite Hp in H. discriminate.
+Qed.
+
+(* not vacuous: how many selected functions there are, and how many of them do store through t something derived from q *)
+Definition count_sel (fns : list fn_rec) (sel : fn_rec -> bool) : nat := List.length (filter sel fns).
+Definition count_storing_sel (fns : list fn_rec) (sf : store_facts) (sel : fn_rec -> bool) (t q : N) : nat :=
+  List.length (filter (fun f => sel f && existsb (fun e => N.eqb (fst e) t && memN q (snd e)) (stores_of sf (fn_id f))) fns).
